@@ -9,7 +9,7 @@ from fractions import Fraction
 from sa.canon import canon
 from sa.peval import Unknown, compile_term, peval
 from sa.report import Ctx
-from sa.sym import callkw, FALSE, NONE, NOT, Summary, conjuncts, show, subst, walk
+from sa.sym import AND, callkw, FALSE, NONE, NOT, Summary, conjuncts, show, subst, walk
 
 MOD = "soundevent.operations"
 
@@ -151,7 +151,9 @@ class C14:
             for e in breaks + [y]:
                 lv = self._eval_live(e.live, start_t, end_raw, sv, ev_, envs)
                 if lv is None:
-                    ctx.undec("R14.3", site, f"condition outside the recognised fragment: {show(e.live)[:80]}")
+                    verdict = self._float_grid(s, L, i, breaks, y, clip, dur, hop, inc, site) if L.kind == "for" else None
+                    if verdict is None:
+                        ctx.undec("R14.3", site, f"condition outside the recognised fragment: {show(e.live)[:80]}")
                     return
                 if lv and e is not y:
                     stopped = True
@@ -161,7 +163,9 @@ class C14:
             want_stop = sv >= cev or (ev_ > cev and not incv)
             if bool(stopped) != want_stop or bool(yielded) == want_stop:
                 bad = (s_rel, e_rel, incv, stopped, yielded)
-        if bad is None:
+        if bad is None and L.kind == "for" and self._float_grid(s, L, i, breaks, y, clip, dur, hop, inc, site) is False:
+            pass  # reported by the float grid
+        elif bad is None:
             ctx.ok("R14.3", site, f"stop iff start >= clip.end or (end > clip.end and not include_incomplete), else yield ({n} cases)")
         else:
             rel = {-1: "<", 0: "==", 1: ">"}
@@ -191,6 +195,52 @@ class C14:
             ctx.bad("R14.5", self.file, "segment_clip", f"uuid={show(u)[:80] if u else 'default'}",
                     "segment identifiers must be uuid5(uuid_namespace, text containing the parent uuid and the final start and end): "
                     "otherwise ids are not reproducible across calls or collide within one call", y.lineno)
+
+    def _float_grid(self, s, L, i, breaks, y, clip, dur, hop, inc, site):
+        """The stop / yield conditions evaluated in DOUBLE arithmetic on concrete clips, windows and hops with non-representable
+        decimals, against the specification evaluated the same way: start = clip.start + i * hop; stop iff start >= clip.end or
+        (start + duration > clip.end and not include_incomplete).  A test that is equal to the specified one in real arithmetic
+        but not in doubles ((start + duration) - start < duration) differs on this grid.
+        -> True (agrees everywhere) / False (reported) / None (a condition could not be evaluated)."""
+        ctx = self.ctx
+        cs, ce = ("attr", clip, "start_time"), ("attr", clip, "end_time")
+        hop_p = ("param", "hop")
+        worst = None
+        n = 0
+        for csv, cev, dv, hv in ((0.0, 1.0, 0.1, 0.1), (0.0, 1.0, 0.1, 0.05), (0.3, 2.0, 0.2, 0.1), (10.0, 11.0, 0.3, 0.1),
+                                 (0.0, 1.0, 0.25, 0.25), (0.0, 10.0, 3.0, 2.0), (1.1, 3.3, 0.7, 0.7), (0.0, 0.5, 1 / 3, 1 / 7)):
+            for incv in (False, True):
+                stopped_before = False
+                for k in range(0, 40):
+                    env = {cs: csv, ce: cev, ("attr", clip, "duration"): cev - csv, dur: dv, hop_p: hv, inc: incv, i: k,
+                           ("cmp", "is", hop_p, NONE): False, ("cmp", "isnot", hop_p, NONE): True}
+                    start = csv + k * hv
+                    want_stop = start >= cev or (start + dv > cev and not incv)
+                    stop = yld = False
+                    for e in breaks + [y]:
+                        lv = peval(AND(*[c for c in conjuncts(e.live) if c[0] != "inloop"]), env)
+                        if lv[0] != "const":
+                            return None
+                        if lv[1] and e is not y:
+                            stop = True
+                        if lv[1] and e is y and not stop:
+                            yld = True
+                    n += 1
+                    if stop != want_stop or yld == want_stop:
+                        worst = worst or (csv, cev, dv, hv, incv, k, start, stop, yld, want_stop)
+                    if want_stop or stop:
+                        break
+        if worst is None:
+            ctx.ok("R14.3", site, f"stop / yield decisions agree with the specification in double arithmetic on {n} windows with non-representable steps")
+            return True
+        csv, cev, dv, hv, incv, k, start, stop, yld, want_stop = worst
+        ctx.bad("R14.3", self.file, "segment_clip", "stop / yield conditions in double arithmetic",
+                f"clip [{csv}, {cev}], duration {dv}, hop {hv}, include_incomplete={incv}: at window {k} (start {start!r}) the loop "
+                f"{'stops' if stop else ('yields' if yld else 'skips')} where the specification {'stops' if want_stop else 'yields the window'} "
+                f"(start + duration = {start + dv!r} vs clip end {cev}): the test is equal to the specified one in real arithmetic only -- "
+                f"in doubles (start + duration) - start is often one ulp below duration, so complete windows are taken for truncated ones",
+                y.lineno, witness={"clip": [csv, cev], "duration": dv, "hop": hv, "include_incomplete": incv, "window": k})
+        return False
 
     def _eval_live(self, live, start_t, end_raw, sv, ev_, env):
         """Evaluate a path condition where the (canonical) start and raw end terms take given values."""
